@@ -60,7 +60,8 @@ def build(obj, conc):
     t.tree.arch = arch
     t.tree.build_timestamp = 1432300000 if sec["ts"] == "int" else 1432300000.75
     pl = {"p1": conc.p1, "p2": conc.p2}
-    t.tree.platforms = set(pl[p] for p in sec["plats"]) | set([arch])
+    # the writer always lists the tree arch among the platforms; only image tables need it listed explicitly
+    t.tree.platforms = set(pl[p] for p in sec["plats"]) | (set([arch]) if sec["imgs"] != "none" else set())
 
     def mk(u, vtype):
         v = Variant(t)
@@ -294,6 +295,8 @@ def compare_trees(a, b):
             x, y = getattr(getattr(a, sec), at, "<missing>"), getattr(getattr(b, sec), at, "<missing>")
             if at == "build_timestamp":
                 x = int(x)
+            if at == "platforms":
+                x = set(x) | set([a.tree.arch])
             if x != y:
                 fails.append("%s.%s: wrote %r, read %r" % (sec, at, x, y))
     if a.release.is_layered:
